@@ -8,7 +8,7 @@
 """
 import os, sys, copy, shutil, tempfile, subprocess, gc
 import numpy as np
-from pmv import common, gen, observe
+from pmv import common, gen, observe, corpus
 
 ID   = 'C14'
 RULE = ( 'case kinds: (history) random operation sequences of 6..14 steps on one object - set frequency, compute, '
@@ -33,6 +33,8 @@ def plan (tier, seed):
     out += [dict (kind = 'sweep',   i = i, seed = seed) for i in range (24 * k)]
     out += [dict (kind = 'procs',   i = i, seed = seed, n = 6 if tier == 'quick' else 16) for i in range (12 * k)]
     out += [dict (kind = 'inproc',  i = i, seed = seed) for i in range (16 * k)]
+    out += [dict (kind = 'routes',  i = i, seed = seed) for i in range (30 * k)]
+    out += [dict (c, kind = 'routes') for c in corpus.plan_cases (seed, tier, 1, 1)]
     return out
 # end def plan
 
@@ -374,6 +376,51 @@ def check_inproc (c):
     return dict (status = 'violation' if viol else 'held', sig = 'inproc|%s' % kinds, nontrivial = ntag >= 2, monitors = dict (inproc = 10), violations = viol)
 # end def check_inproc
 
+def check_routes (c):
+    """ the model described by an option file and the same model put together with the classes of the library - in the
+        order the program uses, with the loads registered before the sources, from a plain list of objects - give
+        the same matrix, currents, impedances and report: the result depends on the inputs, not on the way or the
+        order in which they were handed over. (Insulation loads are created after the Mininec object on every route:
+        creating them earlier changes the result, see the known finding stale-i6-insulated-wire of C18.)
+    """
+    rng  = np.random.default_rng ([c ['seed'], 146, c ['i']])
+    if 'corpus' in c:
+        spec = corpus.make (c, 14, freq = False, sources = False)
+    else:
+        spec = loaded_model (rng, cli_sources = True, nobj_min = 1)
+    MM   = common.repo ()
+    m0   = gen.build (spec)
+    observe.solve (m0)
+    opts = {'far-field'}
+    zen, azi = (10.0, 35.0, 3), (0.0, 60.0, 3)
+    common.guarded (lambda: m0.compute_far_field (MM.Angle (*zen), MM.Angle (*azi)), 'compute_far_field')
+    a = snapshot (m0, opts)
+    viol, mon = [], {}
+    worst = 0.0
+    variants = [('api', {}), ('api-late-sources', dict (late_sources = True))]
+    if not (spec.get ('tr') or spec.get ('sc')) and not any (l ['k'] in ('skin', 'ins') for l in spec ['loads']) and not any (g.get ('taper') for g in spec ['geo']):
+        variants.append (('api-plain-list', dict (plain_list = True)))
+    for name, kw in variants:
+        m1 = gen.build (spec, route = 'api', **kw)
+        observe.solve (m1)
+        common.guarded (lambda: m1.compute_far_field (MM.Angle (*zen), MM.Angle (*azi)), 'compute_far_field')
+        b = snapshot (m1, opts)
+        for key in a:
+            mon [name] = mon.get (name, 0) + 1
+            if key == 'text':
+                if a [key] != b [key]:
+                    la, lb = a [key].split ('\n'), b [key].split ('\n')
+                    viol.append (dict (monitor = 'routes', key = 'route-report', msg = 'route %s: report differs from the command-line route: %r' % (name, [(x, y) for x, y in zip (la, lb) if x != y] [:1])))
+                continue
+            e = relerr (b [key], a [key])
+            worst = max (worst, e / 1e-12)
+            if e > 1e-12 and len (viol) < 6:
+                viol.append (dict (monitor = 'routes', key = 'route-' + key, msg = 'route %s: %s differs by %.3g from the model built through the command line' % (name, key, e), measured = e, allowed = 1e-12))
+    kinds = '+'.join (sorted (set (l ['k'] + ('T' if l.get ('tag') else '') for l in spec ['loads'])))
+    return dict ( status = 'violation' if viol else 'held', sig = 'routes|%s|%s|%s|%d' % (spec.get ('fam'), kinds, 'gnd' if spec ['media'] else 'free', len (variants))
+                , nontrivial = bool (spec ['loads']) or len (spec ['geo']) > 1, margin = worst, monitors = mon, violations = viol)
+# end def check_routes
+
 def check (c):
-    return dict (history = check_history, sweep = check_sweep, procs = check_procs, inproc = check_inproc) [c ['kind']] (c)
+    return dict (history = check_history, sweep = check_sweep, procs = check_procs, inproc = check_inproc, routes = check_routes) [c ['kind']] (c)
 # end def check
